@@ -3,6 +3,7 @@ package request
 import (
 	"crypto/ecdsa"
 	"encoding/base64"
+	"fmt"
 
 	"github.com/ethereum/go-ethereum/crypto"
 	"github.com/ethereum/go-ethereum/p2p/discv5"
@@ -77,6 +78,9 @@ func (r NodeRequest) Verify(sig string) error {
 	// crypto.Sign produces a signature in the form [R || S || V] (65 bytes)
 	// where V is 0 or 1 and crypto.VerifySignature wants [R || S] (64 bytes).
 	// ¯\_(ツ)_/¯
+	if len(sigbytes) < 64 {
+		return fmt.Errorf("signature wrong length: %d", len(sigbytes))
+	}
 	sigbytes = sigbytes[:64]
 
 	hashed, err := r.hash()
